@@ -1,7 +1,7 @@
 (* C10 -- Error() composes predictably; annotations are transparent; nil stays nil.
    Statements only; proofs in Proofs/BuildFacts.v. *)
 From Errv Require Import Base.Str Redact.Markers Model.Err Model.Sem Model.Marks Model.Build
-     Proofs.BuildFacts.
+     Proofs.BuildFacts Proofs.ShortText.
 
 (* annotation-only wrappers (stack, hint, detail, safe details, telemetry, domain,
    issue link, tags, assertion marker, Mark, HTTP / gRPC code) and secondary errors
@@ -24,6 +24,7 @@ Proof. exact annotation_is. Qed.
 Print Assumptions C10_is_kept.
 
 Theorem C10_as_kept : forall i w c t n,
+  annotation w = true ->
   as_ c t = Some n -> assignable (Wrap i w c) t = false -> as_ (Wrap i w c) t = Some n.
 Proof. exact annotation_as. Qed.
 Print Assumptions C10_as_kept.
@@ -37,6 +38,18 @@ Theorem C10_prefix_partial : forall i rp c,
   match rp with [] => error_text c | _ => strip_markers rp ++ lit ": " ++ cause_v c end.
 Proof. exact prefix_text. Qed.
 Print Assumptions C10_prefix_partial.
+
+(* with C09_v_s: for plain causes the layer yields exactly 'prefix: cause-text' *)
+Theorem C10_prefix : forall i rp c,
+  plain_tree c = true ->
+  error_text (Wrap i (WPrefix rp) c) =
+  match rp with [] => error_text c | _ => strip_markers rp ++ lit ": " ++ error_text c end.
+Proof.
+  intros i rp c H. rewrite prefix_text. destruct rp; [reflexivity|].
+  unfold cause_v. destruct (lib_format c); [|reflexivity].
+  now rewrite (fmt_plain_short_is_error_text c H).
+Qed.
+Print Assumptions C10_prefix.
 
 Theorem C10_newmsg : forall i rm c, error_text (Wrap i (WNewMsg rm) c) = strip_markers rm.
 Proof. exact newmsg_text. Qed.
